@@ -1020,10 +1020,12 @@ func runQuery(emit func(c10case), c *config, cfgIdx int, bks []*backend, q query
 		case 1:
 			base.OrE = lpmOracle(c.Nets[base.Map8], a, base.Seen.Src+96, true)
 		case 2:
-			// a client that states family 2 is matched as a 128-bit prefix; a
-			// v6-mapped IPv4 address still belongs to the IPv4 subnets only
-			base.OrE = lpmOracle(c.Nets[base.Map8], a, base.Seen.Src, isV4(a))
+			// a family 2 client is a 128-bit prefix; a v4-mapped address disclosed
+			// with at least the 96 prefix bits is an IPv4 client, with fewer bits
+			// it is an IPv6 prefix that merely covers the v4-mapped block
+			base.OrE = lpmOracle(c.Nets[base.Map8], a, base.Seen.Src, isV4(a) && base.Seen.Src >= 96)
 		default:
+			// no address family: nothing to look up
 			base.OrE = oracle{}
 		}
 	}
